@@ -333,7 +333,9 @@ func c02CheckProgram(c0 *Ctx, p *c02Prog, or *Oracle, srv *FcSrv, hazard bool, q
 	viol := func(name, summary string, extra map[string]any, known bool) {
 		if known {
 			c.Count(p.Stream + "_mismatch=" + name)
-			if p.Stream == "hazard-union2" {
+			if p.Stream == "hazard-matcharms" {
+				c.Known("match-arms-not-unified")
+			} else if p.Stream == "hazard-union2" {
 				c.Known("generic-union-two-instantiations")
 			} else {
 				c.Known("generic-named-args-not-unified")
@@ -390,7 +392,7 @@ func c02CheckProgram(c0 *Ctx, p *c02Prog, or *Oracle, srv *FcSrv, hazard bool, q
 		if mask == 0 {
 			res.fullGen = gen
 		}
-		known := hazard && (c02LeakRe.MatchString(gen) || p.Stream == "hazard-union2")
+		known := hazard && (c02LeakRe.MatchString(gen) || p.Stream == "hazard-union2" || p.Stream == "hazard-matcharms")
 		got, err := c02GoSigs(gen)
 		if err != nil {
 			bad = true
@@ -822,8 +824,8 @@ func runC02(c *Ctx) {
 	c02CheckFoi(c)
 	nRand := c.Pick(110, 6000)
 	nShape := c.Pick(45, 2800)
-	nFam := c.Pick(10, 500) // per family (twobox, clamp, shadow, anyarg, retann, pipe)
-	nHazard := c.Pick(4, 40)
+	nFam := c.Pick(10, 500) // per family (twobox, clamp, shadow, anyarg, retann, pipe, match)
+	nHazard := c.Pick(6, 60)
 	c02MaxSites = c.Pick(4, 6) // quick: <= 2^4 variants per program, thorough: <= 2^6
 	var progs []*c02Prog
 	if c.Replay != "" {
@@ -852,8 +854,8 @@ func runC02(c *Ctx) {
 	for i := 0; i < nHazard; i++ {
 		jobs = append(jobs, job{"hazard", rng.Fork(), len(jobs)})
 	}
-	for i := 0; i < 6*nFam; i++ {
-		jobs = append(jobs, job{[]string{"twobox", "clamp", "shadow", "anyarg", "retann", "pipe"}[i%6], rng.Fork(), len(jobs)})
+	for i := 0; i < 7*nFam; i++ {
+		jobs = append(jobs, job{[]string{"twobox", "clamp", "shadow", "anyarg", "retann", "pipe", "match"}[i%7], rng.Fork(), len(jobs)})
 	}
 	if c.Replay == "" {
 		progs = make([]*c02Prog, len(jobs))
@@ -876,7 +878,9 @@ func runC02(c *Ctx) {
 				case "rand":
 					p = c02GenRandProg(c, j.rng, or, j.id, "")
 				case "hazard":
-					if j.id%2 == 0 {
+					if j.id%3 == 0 {
+						p = c02HazardMatchArms(j.rng, j.id)
+					} else if j.id%3 == 1 {
 						p = c02HazardTemplate(j.rng, j.id)
 					} else {
 						p = c02FamTwoBox(j.rng, j.id, true)
@@ -899,6 +903,9 @@ func runC02(c *Ctx) {
 					p.initSites(j.rng)
 				case "pipe":
 					p = c02FamPipe(j.rng, j.id)
+					p.initSites(j.rng)
+				case "match":
+					p = c02FamMatch(j.rng, j.id)
 					p.initSites(j.rng)
 				default:
 					p = c02GenShapeProg(j.rng, j.id, c.Thorough())
